@@ -16,6 +16,7 @@ import (
 	"go/token"
 	"os"
 	"path/filepath"
+	"runtime"
 	"strconv"
 	"strings"
 )
@@ -89,6 +90,19 @@ func main() {
 			if j := strings.Index(rest, "\n\treturn alerts\n}"); j >= 0 && !strings.Contains(rest[:j], "\nfunc ") {
 				patched := text[:i] + rest[:j] + "\n\tsort.Slice(alerts, func(i, j int) bool {\n\t\treturn simrand.Key(uint64(alerts[i].Fingerprint())) < simrand.Key(uint64(alerts[j].Fingerprint()))\n\t})" + rest[j:]
 				patched = strings.Replace(patched, "import (\n", "import (\n\t\"sort\"\n\tsimrand \"verif/sim/simrand\"\n", 1)
+				// a yield before every acquisition of the store lock: the simulator can
+				// preempt an ingestion worker between two store operations (it only does so
+				// for goroutines it has tagged as lock-free ingestion workers)
+				if !strings.Contains(patched, "pkg/verifhook") {
+					n := 0
+					for _, lock := range []string{"\n\ta.Lock()\n", "\n\ta.RLock()\n"} {
+						n += strings.Count(patched, lock)
+						patched = strings.ReplaceAll(patched, lock, "\n\tverifhook.Yield(\"auto.store\")"+lock)
+					}
+					if n > 0 {
+						patched = strings.Replace(patched, "import (\n", "import (\n\t\"github.com/prometheus/alertmanager/pkg/verifhook\"\n", 1)
+					}
+				}
 				if fset := token.NewFileSet(); true {
 					if f, err := parser.ParseFile(fset, "store.go", patched, parser.ParseComments); err == nil {
 						// drop a duplicate "sort" import if the file already had one
@@ -110,8 +124,125 @@ func main() {
 			}
 		}
 	}
+	runtimeOverlay(*out, repl)
 	b, _ := json.MarshalIndent(map[string]any{"Replace": repl}, "", " ")
 	must(os.WriteFile(filepath.Join(*out, "overlay.json"), b, 0o644))
+}
+
+// runtimeOverlay makes the three places where the Go runtime draws an unseeded
+// random number to decide something a simulated run can observe draw from a
+// per-bubble sequence seeded by the simulator instead (runtime.verifSeed, set
+// before each run; 0 = the stock behaviour):
+//   - the firing order of synctest timers due at the same instant (the stock
+//     runtime shuffles them on purpose),
+//   - the polling order of select when several cases are ready,
+//   - (not a draw, same purpose) sysmon's wall-clock driven retaking of Ps,
+//   - the hash seed and iteration start of maps made / ranged over inside a bubble
+//     (and the process-wide hash key, which is boot-time random in the stock runtime).
+//
+// The patches are textual and each must apply exactly once, or the build stops.
+func runtimeOverlay(out string, repl map[string]string) {
+	root := runtime.GOROOT()
+	patch := func(rel string, edits [][2]string, tail string) {
+		src := filepath.Join(root, "src", rel)
+		b, err := os.ReadFile(src)
+		must(err)
+		text := string(b)
+		for _, e := range edits {
+			if strings.Count(text, e[0]) != 1 {
+				must(fmt.Errorf("runtime overlay: %s: expected exactly one %q (Go %s)", rel, e[0], runtime.Version()))
+			}
+			text = strings.Replace(text, e[0], e[1], 1)
+		}
+		text += tail
+		dst := filepath.Join(out, "goroot_"+strings.ReplaceAll(rel, "/", "_"))
+		must(os.WriteFile(dst, []byte(text), 0o644))
+		repl[src] = dst
+	}
+	patch("runtime/time.go", [][2]string{
+		{"\t\t\tt.rand = cheaprand()\n", "\t\t\tt.rand = verifTimerRand(ts, t)\n"},
+		{"type timers struct {\n", "type timers struct {\n\tverifSeq uint32 // verif: arming counter (first-armed-first among equals)\n\tverifSelNow int64\n\tverifSelK uint32\n"},
+	}, `
+// ---- verif: simulator-owned tie-breaking (see /verif/sim/cmd/genoverlay) ----
+
+//go:linkname verifSeed
+var verifSeed uint64
+
+func verifMix(x uint64) uint64 {
+	x += 0x9e3779b97f4a7c15
+	x = (x ^ (x >> 30)) * 0xbf58476d1ce4e5b9
+	x = (x ^ (x >> 27)) * 0x94d049bb133111eb
+	return x ^ (x >> 31)
+}
+
+// None of the three draws below comes from a running sequence shared by the
+// whole bubble: one extra draw somewhere (a lazily initialised package, a
+// sync.Pool emptied by a collection) would shift every later one. Each is a
+// function of the seed and of local facts only.
+
+// verifTimerRand orders timers due at the same instant: by a pseudo-random
+// function of (seed, instant of arming, kind of timer), and first-armed-first
+// among timers armed at the same instant for the same kind. Called with ts (the
+// bubble's timer heap) locked.
+func verifTimerRand(ts *timers, t *timer) uint32 {
+	gp := getg()
+	if verifSeed == 0 || gp == nil || gp.bubble == nil {
+		return cheaprand()
+	}
+	ts.verifSeq++
+	h := verifMix(verifSeed ^ uint64(gp.bubble.now)*0x9e3779b97f4a7c15 ^ uint64(abi.FuncPCABIInternal(t.f))<<17)
+	return uint32(h>>32)&0xffff0000 | ts.verifSeq&0xffff
+}
+
+// verifSelectRand: the polling order of a select is a function of the seed, the
+// virtual instant, the number of selects the bubble has executed since the clock
+// last moved, and the position in the shuffle. (The count is needed: net/http
+// spins on a select with two permanently ready cases until the other one is
+// picked; an order that is constant within an instant would never end.)
+func verifSelectRand(i, n uint32) uint32 {
+	gp := getg()
+	if verifSeed == 0 || gp == nil || gp.bubble == nil {
+		return cheaprandn(n)
+	}
+	ts := &gp.bubble.timers
+	if i == 0 || ts.verifSelNow != gp.bubble.now {
+		if ts.verifSelNow != gp.bubble.now {
+			ts.verifSelNow = gp.bubble.now
+			ts.verifSelK = 0
+		}
+		ts.verifSelK++
+	}
+	return uint32((verifMix(verifSeed^0x5e1ec7^uint64(gp.bubble.now)*0xbf58476d1ce4e5b9^uint64(i)<<56^uint64(ts.verifSelK)<<24) >> 32) * uint64(n) >> 32)
+}
+
+// verifMapRand: hash seeds and iteration starts of maps used inside a bubble are
+// a function of the seed and the virtual instant.
+func verifMapRand() uint64 {
+	gp := getg()
+	if verifSeed == 0 || gp == nil || gp.bubble == nil {
+		return rand()
+	}
+	return verifMix(verifSeed ^ 0x3a9 ^ uint64(gp.bubble.now)*0x94d049bb133111eb)
+}
+`)
+	// the string/memory hash is keyed with boot-time random data: two processes
+	// place the same keys differently and so iterate the same map differently
+	patch("runtime/alg.go", [][2]string{
+		{"\t\thashkey[i] = uintptr(bootstrapRand())\n", "\t\thashkey[i] = uintptr(verifMix(uint64(i) + 11))\n"},
+		{"\t\tkey[i] = bootstrapRand()\n", "\t\tkey[i] = verifMix(uint64(i) + 101)\n"},
+	}, "")
+	// sysmon neither takes the P away from a goroutine that sits in a (short, real)
+	// system call nor asks a long-running goroutine to yield while a simulated run
+	// is in progress: both reorder goroutines by wall-clock time
+	patch("runtime/proc.go", [][2]string{
+		{"func retake(now int64) uint32 {\n\tn := 0\n", "func retake(now int64) uint32 {\n\tif verifSeed != 0 {\n\t\treturn 0\n\t}\n\tn := 0\n"},
+	}, "")
+	patch("runtime/select.go", [][2]string{
+		{"\t\tj := cheaprandn(uint32(norder + 1))\n", "\t\tj := verifSelectRand(uint32(norder), uint32(norder + 1))\n"},
+	}, "")
+	patch("runtime/rand.go", [][2]string{
+		{"func maps_rand() uint64 {\n\treturn rand()\n}", "func maps_rand() uint64 {\n\treturn verifMapRand()\n}"},
+	}, "")
 }
 
 func must(err error) {
